@@ -5,6 +5,18 @@ claimed = {
  "C06": dict(level="other", text="Bounded symbolic execution of the real lexer (go/ssa interpreted with SMT terms for every rune and location field) against a reference lexer written from grammar.ebnf; holds for every text within the stated window bound, decided by z3, counterexamples replayed natively before being reported.",
              note="Bounds: step harness window K runes (quick 4 / thorough 6), prefixed step K (3/5) behind 23 fixed openers, whole-stream cross-check K (2/3). Trusted: go/ssa, the gosym interpreter, z3 4.8.12, the reference lexer (harness/homescript/lexer/zz_verif_ref.go). Lexemes longer than the window are covered only through the one-step induction; float value decoding is not checked.",
              technique="bounded symbolic execution (go/ssa) + SMT (z3), differential vs reference lexer", design="§2 C06"),
+ "C01": dict(level="other", text="Bounded symbolic execution of the whole pipeline (real lexer, parser, analyzer, compiler, VM with its goroutine/channel hand-off) on program families whose operand values are unconstrained solver variables; VM output and outcome are compared as SMT terms with a definitional reference (operator table B.3 and a reference interpreter over the parsed tree).",
+             note="Families: 19 infix operators x 4 types; 28 catalogue programs; nesting family depth 1 (quick) / 2 (thorough). Program structure is covered only by these families (selectors exhaustively), not all programs. `**` and float text formatting are outside (uninterpreted). Trusted: go/ssa, gosym, z3, the reference interpreter (harness/homescript/zz_verif_refinterp.go).",
+             technique="bounded symbolic execution of the real pipeline (go/ssa) + SMT (z3) vs definitional reference", design="§2 C01"),
+ "C02": dict(level="other", text="Bounded symbolic execution of compile+run on both back ends with every Go run-time failure and step-bound overrun as a path outcome; operand values are solver variables, so the solver produces the zero divisors, negative shifts and out-of-range indices.",
+             note="Families as C01 (operators, 28 catalogue programs, nesting depth 2 quick / 3 thorough), limits fixed (100/500/256). Deadlock is an engine outcome of the cooperative goroutine model (scheduling only at blocking operations). Trusted: go/ssa, gosym, z3.",
+             technique="bounded symbolic execution (go/ssa) + SMT (z3), panic/deadlock/bound outcomes", design="§2 C02"),
+ "C04": dict(level="translation_validation", text="The same analysed program runs on the VM and on the tree-walking interpreter inside one symbolic path; outputs (strings with symbolic number pieces) and outcome classes are compared as SMT terms; disagreements are replayed natively.",
+             note="Families as C01 restricted to the shared fragment (no trigger/spawn/-> ~>). Fatal kinds compared by class; stack-trace text ignored. Trusted: go/ssa, gosym, z3.",
+             technique="differential bounded symbolic execution (VM vs tree interpreter) + SMT (z3)", design="§2 C04"),
+ "C11": dict(level="other", text="Bounded symbolic execution of a generated nesting family (every nesting of 11 construct kinds around 5 exit kinds up to depth D, exit condition and failing index symbolic) through compiler+VM and through the tree interpreter, compared with a definitional reference interpreter; host crashes count as violations.",
+             note="D = 2 quick / 3 thorough; throws cross at most the generated call slots; caught error object: message only. Trusted: go/ssa, gosym, z3, reference interpreter.",
+             technique="bounded symbolic execution (go/ssa) + SMT (z3) vs definitional reference interpreter", design="§2 C11"),
  "C05": dict(level="other", text="Bounded symbolic execution of lexer (and parser/analyzer as they are added) with Go run-time panics and step-bound overruns as path outcomes; within the stated bounds no input makes the code panic or fail to make progress.",
              note="Currently: lexer step totality/progress on windows of K runes (quick 3 / thorough 5). Trusted: go/ssa, gosym, z3.",
              technique="bounded symbolic execution (go/ssa) + SMT (z3), panic/bound outcomes", design="§2 C05"),
